@@ -145,6 +145,12 @@ def _while_shape(fn, ctx, L):
     if n.get("c") is None or n.get("body") is None:
         return out
     fs = ctx.cmp_fact(n["c"], True)
+    if len(fs) == 1 and fs[0][0] == "!=" and not any(isinstance(x, tuple) and x[0] == "mcall" and x[1].split("::")[-1] in ("end", "cend") for x in fs[0][1:]):
+        # counter written with != :  v = 0; while (v != B) { ...; ++v; }   (B a size): same values as v < B
+        v_ = [x for x in fs[0][1:] if x[0] == "var" and ctx.decls.get(x[1], {}).get("init") is not None and _unconv(ctx.key(ctx.decls[x[1]]["init"])) == ("lit", 0) and ctx.mut.get(x[1])]
+        if len(v_) == 1:
+            other_ = [x for x in fs[0][1:] if x != v_[0]][0]
+            fs = [("<", v_[0], other_)]
     if len(fs) == 1 and fs[0][0] in ("<", "<=") and fs[0][1][0] == "var":
         # counter form:  T v = s; while (v < B) { ...; ++v; }   (declared before the loop, advanced once, as the last statement of the
         # body, on every path; nothing else changes it)  ->  the same description as  for (v = s; v < B; ++v)
